@@ -218,7 +218,13 @@ func (d *swDetector) Scan(ctx context.Context, root *scalibrfs.ScanRoot, px *pac
 	d.s.mu.Lock()
 	d.s.detector++
 	d.s.mu.Unlock()
-	return nil, nil
+	// findings in an order that is not the documented one (advisory reference, then extra)
+	adv := func(ref string) *detector.Advisory {
+		return &detector.Advisory{ID: &detector.AdvisoryID{Publisher: "V", Reference: ref}, Title: "t-" + ref}
+	}
+	return []*detector.Finding{
+		{Adv: adv("B"), Extra: "2"}, {Adv: adv("A"), Extra: "9"}, {Adv: adv("A"), Extra: "1"}, {Adv: adv("C"), Extra: "0"}, {Adv: adv("B"), Extra: "1"},
+	}, nil
 }
 
 type swStats struct {
@@ -251,6 +257,7 @@ type swObs struct {
 	Detector     int            `json:"detector"`
 	Ties         int            `json:"ties"`
 	NoStandalone bool           `json:"no_standalone"`
+	Findings     int            `json:"findings"`
 	AfterCanc    []string       `json:"after_cancel"`
 	Panic        string         `json:"panic,omitempty"`
 }
@@ -519,6 +526,13 @@ func runScanWalk(c *swCase, mode, nmName, tmp string, faultKind int) (obs swObs)
 			}
 		}
 	}
+	for i := 1; i < len(res.Inventory.Findings); i++ {
+		a, b := res.Inventory.Findings[i-1], res.Inventory.Findings[i]
+		if a.Adv.ID.Reference > b.Adv.ID.Reference || (a.Adv.ID.Reference == b.Adv.ID.Reference && a.Extra > b.Extra) {
+			obs.Sorted = false
+		}
+	}
+	obs.Findings = len(res.Inventory.Findings)
 	seen := map[string]bool{}
 	lastName := ""
 	for _, st := range res.PluginStatus {
